@@ -184,6 +184,29 @@ def extend_case(rng):
                 changed=0 if ext.tables.edges.equals(ts.tables.edges) else 1)
 
 
+def extend_signature(c, fails):
+    """known finding: extend_haplotypes pulls a mutation that sits on a *detached* non-sample node (no parent and no child at the site's
+    position in the input) into a sample's ancestry when it extends that node over the position.  Only when nothing else failed."""
+    if not set(fails) <= {"extend_genotypes", "extend_simplified_differs"}:
+        return None
+    exts = [e for e in c["ops"] if e["op"] == "extend_haplotypes"]
+    if len(exts) != 1:
+        return None
+    a = c["a2"] if exts[0].get("base") == "a2" else c.get("a_ext")
+    b = exts[0]["b"]
+    if a is None:
+        return None
+
+    def attached(t, u, x):
+        return any(e["left"] <= x < e["right"] and (e["child"] == u or e["parent"] == u) for e in t["edges"])
+    for m in a["muts"]:
+        x = a["sites"][m["site"]]["pos"]
+        u = m["node"]
+        if not a["flags"][u] and not attached(a, u, x) and attached(b, u, x):
+            return "extend-haplotypes-mutation-on-detached-node"
+    return None
+
+
 def run():
     chk = Check("C11")
     rng = random.Random(SEED * 7919 + 11)
@@ -256,7 +279,7 @@ def run():
             chk.extra.setdefault("clause_hist", {})
             chk.extra["clause_hist"][cl] = chk.extra["clause_hist"].get(cl, 0) + 1
         if f:
-            chk.violation("trace rejected by Trace_Edits: %s %s" % (sorted(f), st["eval_errors"].get(c["id"], "")[-400:]), c)
+            chk.violation("trace rejected by Trace_Edits: %s %s" % (sorted(f), st["eval_errors"].get(c["id"], "")[-400:]), c, signature=extend_signature(c, f))
         else:
             chk.traces += 1
     chk.extra.update(universe_cases=nuni, random_cases=len(cases) - nuni, operations=opcount,
